@@ -34,7 +34,7 @@ META = {
     },
     "outside": ["OS scheduler / real interleavings (replaced by write-disjointness)",
                 "numba's compilation of the kernels (the Python source is what is executed)",
-                "per-thread RNG streams of quimb/gen/rand.py (statistical)",
+                "statistics of the per-thread RNG streams of quimb/gen/rand.py (their seeding structure is checked numerically by rng_streams_distinct)",
                 "MPI launching of the operator builders (the world_rank / world_size striding itself is covered by operator_parallel)"],
     "assumptions": ["float-typed block counts are used as integers the way numba truncates them",
                     "`complex(a, b)` on symbolic scalars is modelled as a + i*b"],
@@ -426,3 +426,32 @@ def operator_parallel(mk, symmetry, W):
                   H.matvec(xv.copy(), sector=sec, symmetry=sym))
             sp = H.build_sparse_matrix(sector=sec, symmetry=sym, parallel=min(Wn, 4))
             mk.eq(f"sector {sec}: build_sparse_matrix(parallel) == dense", np.asarray(sp.todense()), np.asarray(A))
+
+
+@obligation(PROP, numeric=True)
+def rng_streams_distinct(mk):
+    """[numeric-only, structural] the per-thread random generators: for an explicit seed, generator i is built from the
+    i-th child of ONE numpy SeedSequence(seed) (so all streams differ), for every thread count up to 16; a threaded
+    fill then consists of pairwise different chunks and is reproducible.  (The statistics of the streams are outside.)"""
+    import quimb.gen.rand as qr
+    mk.encodes(qr._RGenHandler.set_seed, qr._RGenHandler.get_rgens, qr.randn)
+    if mk.sym:
+        mk.same("numeric-only obligation", True, True)
+        return
+    for seed in (0, 7, 12345):
+        for k in (1, 2, 4, 5, 8, 9, 16):
+            qr.seed_rand(seed)
+            gens = qr._RG_HANDLER.get_rgens(k) if hasattr(qr, "_RG_HANDLER") else None
+            if gens is None:
+                raise Skip("generator handler not found")
+            firsts = [g.bit_generator.state["state"]["state"] for g in gens[:k]]
+            mk.same(f"seed={seed}, {k} threads: all generator states differ", len(set(map(int, firsts))), k)
+            children = np.random.SeedSequence(seed).spawn(k)
+            want = [type(gens[0].bit_generator)(ch).state["state"]["state"] for ch in children]
+            mk.same(f"seed={seed}, {k} threads: generator i is seeded by child i of SeedSequence(seed)", list(map(int, firsts)), list(map(int, want)))
+        for k in (2, 5, 8, 16):
+            x = qr.randn(64 * k, seed=seed, num_threads=k)
+            y = qr.randn(64 * k, seed=seed, num_threads=k)
+            mk.same(f"seed={seed}, {k} threads: a seeded fill is reproducible", bool(np.array_equal(x, y)), True)
+            chunks = [tuple(np.round(ch, 12)) for ch in np.array_split(x, k)]
+            mk.same(f"seed={seed}, {k} threads: the chunks of a threaded fill are pairwise different", len(set(chunks)), k)
